@@ -3,6 +3,7 @@ package main
 import (
 	"fmt"
 	"regexp"
+	"strings"
 	"go/types"
 )
 
@@ -197,8 +198,26 @@ func (f *Frame) fieldSet(st *State, s Val, field string, n Term) (Term, *Sort, b
 
 // appendFieldSetFacts: for pointer-element slices, the field sets named in the
 // contract files grow by the field of the appended element.
+// specUsesFieldSets: some clause of the contract that is in force mentions a field set.
+func specUsesFieldSets(spec *FuncSpec) bool {
+	if spec == nil {
+		return false
+	}
+	for _, cls := range [][]*SpecClause{spec.Requires, spec.Ensures, spec.Invariants} {
+		for _, c := range cls {
+			if !skipLabel(c.Label) && strings.Contains(c.Text, "fieldset") {
+				return true
+			}
+		}
+	}
+	return false
+}
+
 func (f *Frame) appendFieldSetFacts(st *State, el types.Type, srcRow, srcLen, content, newLen, x Term) {
 	vc := f.vc
+	if !vc.useFS {
+		return // no contract in force talks about field sets
+	}
 	pt, isPtr := el.Underlying().(*types.Pointer)
 	if !isPtr {
 		return
